@@ -205,6 +205,64 @@ def dfxp_clock_frames(hmax=999):
                   detail=f'TTML begin="{text}" reads as {got} us, exact floor is {exact}')
 
 
+def dfxp_clock_fraction(k=3, hmax=99):
+    """hh:mm:ss.<k digits>  ->  ((h*60+m)*60+s)*10^6 + floor(fraction * 10^6 / 10^k)"""
+    from pycaption.dfxp.base import DFXPReader, TIME_EXPRESSION_PATTERN
+    fn = DFXPReader._convert_clock_time_to_microseconds
+    fd, _, hsh = fplia.function_ast(fn)
+    H, M, S, F = z3.Ints("H M S F")
+    top = 10 ** k - 1
+
+    def env(hr, mr, sr, fr_):
+        return {"clock_time_match": _FakeMatch({
+            "hours": fplia.DigStr(IntV(H, *hr), 2), "minutes": fplia.DigStr(IntV(M, *mr), 2),
+            "seconds": fplia.DigStr(IntV(S, *sr), 2), "frames": None, "sub_frames": fplia.DigStr(IntV(F, *fr_), k)})}
+    # translator validation: concrete stamps through the real function (real regex match) and through the encoding
+    nval = 0
+    for hv, mv, sv, fv in ((0, 0, 0, 0), (0, 0, 8, 2 * 10 ** (k - 1)), (0, 0, 33, 3 * 10 ** (k - 1)), (1, 2, 3, min(top, 4)), (hmax, 59, 59, top), (0, 0, 1, 1)):
+        c2 = Ctx()
+        outs = run_function(c2, fn, env((hv, hv), (mv, mv), (sv, sv), (fv, fv)))
+        got = None
+        for o in outs:
+            if o.kind == "return" and isinstance(o.value, IntV):
+                st, mm = c2.check([H == hv, M == mv, S == sv, F == fv] + o.cons)
+                if st == "sat":
+                    got = fplia.model_int(mm, o.value.t)
+                    break
+        text = "%02d:%02d:%02d.%0*d" % (hv, mv, sv, k, fv)
+        want = fn(TIME_EXPRESSION_PATTERN.search(text))
+        if got != want:
+            raise AssertionError(f"translator validation failed on {text}: real={want} encoding={got}")
+        nval += 1
+    ctx = Ctx()
+    outs = run_function(ctx, fn, env((0, hmax), (0, 59), (0, 59), (0, top)))
+    pre = [H >= 0, H <= hmax, M >= 0, M <= 59, S >= 0, S <= 59, F >= 0, F <= top]
+
+    def violated(o):
+        if o.kind != "return" or not isinstance(o.value, IntV):
+            return z3.BoolVal(True)
+        q = o.value.t
+        base = ((H * 60 + M) * 60 + S) * 1000000
+        return z3.Not(z3.And((q - base) * 10 ** k <= F * 1000000, (q - base + 1) * 10 ** k > F * 1000000))
+    st, m, o, wit = decide(ctx, outs, pre, violated)
+    fns = [f"pycaption.dfxp.base.DFXPReader._convert_clock_time_to_microseconds#{hsh}"]
+    bounds = f"hh:mm:ss.f with hours 0..{hmax}, minutes/seconds 0..59, all fractions of {k} digits; {len(outs)} case paths; validated on {nval} concrete stamps"
+    if st == "unsat":
+        w = None
+        if wit:
+            w = "%02d:%02d:%02d.%0*d" % (fplia.model_int(wit[0], H), fplia.model_int(wit[0], M), fplia.model_int(wit[0], S), k, fplia.model_int(wit[0], F))
+        return result("holds", ctx, witness=w, functions=fns, bounds=bounds)
+    if st == "unknown":
+        return result("inconclusive", ctx, detail="solver unknown", functions=fns, bounds=bounds)
+    hv, mv, sv, fv = (fplia.model_int(m, x) for x in (H, M, S, F))
+    text = "%02d:%02d:%02d.%0*d" % (hv, mv, sv, k, fv)
+    exact = ((hv * 60 + mv) * 60 + sv) * 10**6 + fv * 10**6 // 10 ** k
+    got = _dfxp_read_start(text)
+    return result("violated", ctx, counterexample={"begin": text, "read": got, "exact": exact}, reproduced=(got != exact),
+                  replay_code=_DFXP_REPLAY.format(begin=text, exact=exact), functions=fns, bounds=bounds,
+                  detail=f'TTML begin="{text}" reads as {got} us, exact floor is {exact}')
+
+
 # ---------------------------------------------------------------------------
 # MicroDVD through the public read(): the document is concrete except for one frame number, which the
 # stub of int() turns into a symbolic integer (everything else runs natively or is inlined from the AST)
